@@ -18,6 +18,8 @@ def run(rep, idx, tier):
     rep.require("C06.3", 1)
     rep.require("C06.4", 4)
     rep.require("C06.6", 1)
+    rep.require("C06.7", 2)
+    glue.map_parameters(rep, "C06.7", idx, "csr/bus:Decoder", [("alignment", "alignment"), ("data_width", "data_width"), ("addr_width", "addr_width")])
     glue.reset_discipline(rep, "C06.6", idx, ["csr/bus:Decoder"])
     c = get_ctx(idx, "csr:Decoder.elaborate")
     rep.analysed(c.fi.site)
